@@ -92,6 +92,10 @@ def gen_input(rng, u, defs):
         forms = ["[*1 *2 *3]", "*1", "(do *2)", "#(*3 *1)", "[*1\n *2\n *3]", "(type *e)", "[*1 *1]"]
         return {"kind": "regs", "lines": rng.choice(forms).split("\n")}
     if r < 0.74:
+        if rng.random() < 0.25:
+            # a global bound by THIS input (possibly right after a failed one); a later function declares it nonlocal
+            defs.append(("gvar", u))
+            return {"kind": "none", "lines": [f"(setv gv{u} {u})"]}
         if rng.random() < 0.5:
             defs.append(("fn", u))
             return {"kind": "none", "lines": [f"(defn f{u} [x] [x {u}])"]}
@@ -106,6 +110,10 @@ def gen_input(rng, u, defs):
             return {"kind": "value", "lines": [rng.choice([f"[(m{d}) {u}]", f"(hy.eval '[(m{d}) {u}])"])]}
         if k == "reader":
             return {"kind": "value", "lines": [rng.choice([f"[#rd{d} {u}]", f"(do #rd{d}\n  [{u} #rd{d}])"])][0].split("\n")}
+        if k == "gvar":
+            lines = rng.choice([[f"(defn nlg{u} [] (nonlocal gv{d}) [gv{d} {u}]) (nlg{u})"],
+                                [f"(defn nlg{u} []", f"  (nonlocal gv{d})", f"  [gv{d} {u}]) (nlg{u})"]])
+            return {"kind": "value", "lines": lines, "expect": [d, u]}
         if k == "var":
             if rng.random() < 0.35:
                 # a function that declares the global of an EARLIER input nonlocal: valid in a script (one compilation
@@ -208,9 +216,19 @@ def generate(rng, tier):
         inputs.append({"kind": "none", "lines": ["(defmacro m999 [] [\"mac\" 999])"]})
         inputs.append({"kind": "value", "lines": ["(hy.eval '[(m999) a 998])"]})
     # swarm over the REPL's own configuration: --spy (the Python translation is printed before each evaluation),
-    # another output function
-    return {"inputs": inputs, "eof_mid": rng.random() < 0.1, "spy": rng.random() < 0.2,
-            "output_fn": rng.choice([None, None, None, "repr", "str"])}
+    # another output function, and allow_incomplete=False (an unfinished line is an error, not a continuation)
+    strict = rng.random() < 0.1
+    if strict:
+        out = []
+        for x in inputs:
+            if x["kind"] == "interrupt":
+                out.append({"kind": "fail", "sub": "incomplete", "lines": x["lines"][:1]})
+            else:
+                # the whole input arrives as one chunk of text (line breaks included)
+                out.append(dict(x, lines=["\n".join(x["lines"])]))
+        inputs = out or [{"kind": "value", "lines": ["901"]}]
+    return {"inputs": inputs, "eof_mid": rng.random() < 0.1 and not strict, "spy": rng.random() < 0.2,
+            "output_fn": rng.choice([None, None, None, "repr", "str"]), "strict": strict}
 
 
 # ------------------------------------------------------------------ lockstep driver
@@ -458,6 +476,8 @@ def execute(desc):
             kw["spy"] = True
         if desc.get("output_fn"):
             kw["output_fn"] = desc["output_fn"]
+        if desc.get("strict"):
+            kw["allow_incomplete"] = False
         res = R.run_session(_S["hy"], modname, drv, kw)
     finally:
         sys.modules.pop(modname + "_script", None)
@@ -481,6 +501,8 @@ def shrink(desc):
         yield dict(desc, eof_mid=False)
     if desc.get("spy"):
         yield dict(desc, spy=False)
+    if desc.get("strict") and all(len(x["lines"]) == 1 and x.get("sub") != "incomplete" for x in desc["inputs"]):
+        yield dict(desc, strict=False)
     if desc.get("output_fn"):
         yield dict(desc, output_fn=None)
     n = len(inputs)
